@@ -60,14 +60,12 @@ def plan_jobs(props, tier, vseed, only_seeds=None, only_ops=None, cap_override=N
     names = seed_names()
     if only_seeds:
         names = [n for n in names if n in only_seeds]
-    elif tier == "quick" and not os.environ.get("VERIF_ALLSEEDS"):
-        # a seed-rotated third of F-seed
-        k = vseed % 3
-        names = [n for i, n in enumerate(names) if i % 3 == k]
+    # quick covers EVERY seed (a change that only shows on one seed must not depend on the rotation); what
+    # VERIF_SEED rotates is which argument candidates are drawn when an operation has more than the cap
     if tier == "quick":
         bounds = dict(size_max=3, idx_min=-2, idx_max=4)
-        cap = 8
-        budget = 150
+        cap = 5
+        budget = 100
     else:
         bounds = dict(size_max=4, idx_min=-2, idx_max=5, unroll_cap=12, stmt_budget=2500)
         cap = 30
@@ -187,7 +185,7 @@ def run_property(prop, tier, only_seeds=None, only_ops=None):
     if prop == "C10" and not only_seeds:
         only_seeds = seed_names_tagged(["config", "call"])
         if tier == "quick":
-            only_seeds = [n for i, n in enumerate(only_seeds) if i % 2 == vseed % 2] + [n for n in only_seeds if n in ("s_call_cfg_scale", "s_cfg_call")]
+            pass  # every config/call seed also in quick
             only_seeds = list(dict.fromkeys(only_seeds))
         cap_override = 14 if tier == "quick" else 40
     if prop == "C05":
@@ -201,7 +199,7 @@ def run_property(prop, tier, only_seeds=None, only_ops=None):
         cj0 = []
         for j in jobs:
             j2 = dict(j)
-            j2.update(atomic=False, composites=True, composite_cap=4 if tier == "quick" else 16, budget_s=j["budget_s"] * 0.6)
+            j2.update(atomic=False, composites=True, composite_cap=3 if tier == "quick" else 16, budget_s=j["budget_s"] * 0.6)
             cj0.append(j2)
         jobs = jobs + cj0
     if prop in ("C01", "C04") and not os.environ.get("VERIF_NO_GRID"):
